@@ -78,8 +78,13 @@ theorem parseText_of_item (text : String) (a : Marker.Atom) (h : parseItem text.
   rw [hf, parseSyn, parseAtom_item _ _ h1 h2, h]
   simp [hb, skipWs]
 
-theorem quoteOf_sq {v : String} (h : v.toList.contains '"' = true) : quoteOf v = "'" := by
-  unfold quoteOf; rw [if_pos h]
+theorem quoteOf_sq {v : String} (h : v.toList.contains '"' = true) (hs : SqOk v) : quoteOf v = "'" := by
+  unfold quoteOf
+  have h2 : v.toList.contains '\'' = false := by
+    cases hc : v.toList.contains '\'' with
+    | false => rfl
+    | true => exact absurd rfl (hs _ (List.contains_iff_mem.mp hc))
+  rw [h, h2]; simp
 
 /-- **the grammar reads back what `SingleMarker.__str__` prints**, for a grammar name, a grammar operator and a
 lexable value -/
@@ -92,7 +97,7 @@ theorem parseText_leafText (n op v : String) (sw : Bool) (hn : n ∈ names) (ho 
     | false =>
       have ht : (leafText n op v false).toList =
           n.toList ++ ' ' :: (op.toList ++ ' ' :: '\'' :: (v.toList ++ '\'' :: [])) := by
-        simp [leafText, quoteOf_sq hq, String.toList_append]
+        simp [leafText, quoteOf_sq hq hv, String.toList_append]
       have hh := name_head n hn (' ' :: (op.toList ++ ' ' :: '\'' :: (v.toList ++ '\'' :: [])))
       apply parseText_of_item
       · rw [ht]; exact parseItem_plain_sq n op v hn ho hv []
@@ -101,7 +106,7 @@ theorem parseText_leafText (n op v : String) (sw : Bool) (hn : n ∈ names) (ho 
     | true =>
       have ht : (leafText n op v true).toList =
           '\'' :: (v.toList ++ '\'' :: ' ' :: (op.toList ++ ' ' :: (n.toList ++ []))) := by
-        simp [leafText, quoteOf_sq hq, String.toList_append]
+        simp [leafText, quoteOf_sq hq hv, String.toList_append]
       apply parseText_of_item
       · rw [ht]; exact parseItem_swapped_sq n op v hn ho hv [] (Or.inl rfl)
       · rw [ht]; simp [skipWs]
